@@ -481,6 +481,14 @@ func c11GraphCases(r *Run, id *int) []c11Case {
 		// a named slot handed to a layout whose content uses the slot of the same name
 		{"f0.vuego": "---\nlayout: base\n---\n<p>x</p><template #side><i>x</i><slot name=\"side\"></slot></template>", "layouts/base.vuego": `<main v-html="content"></main><aside><slot name="side">none</slot></aside>`},
 		{"f0.vuego": "---\nlayout: base\n---\n<p>x</p><template #side><slot name=\"side\">fb</slot></template>", "layouts/base.vuego": `<aside><slot name="side"></slot><slot name="side"></slot></aside><main v-html="content"></main>`},
+		// content a page hands to its layout that includes a component with a slot of that same name (the component's
+		// slot is filled with the content again: only the include limit ends this), directly and through a second component
+		{"f0.vuego": "---\nlayout: base\n---\n<p>x</p><template #side><template include=\"box.vuego\"></template></template>", "layouts/base.vuego": `<aside><slot name="side">none</slot></aside><main v-html="content"></main>`,
+			"box.vuego": `<div class="box"><slot name="side">fb</slot></div>`},
+		{"f0.vuego": "---\nlayout: base\n---\n<p>x</p><template v-slot:side><b>s</b><template include=\"outer.vuego\"></template></template>", "layouts/base.vuego": `<aside><slot name="side">none</slot></aside>`,
+			"outer.vuego": `<section><template include="box.vuego"></template></section>`, "box.vuego": `<div class="box"><slot name="side">fb</slot></div>`},
+		{"f0.vuego": "---\nlayout: base\n---\n<template #side><template include=\"box.vuego\"></template></template><template #foot><slot name=\"side\"></slot></template>",
+			"layouts/base.vuego": `<template include="box.vuego"></template><footer><slot name="foot"></slot></footer>`, "box.vuego": `<div class="box"><slot name="side">fb</slot><slot name="foot">ff</slot></div>`},
 		{"f0.vuego": `<template include="f1.vuego"><template #a><template include="f1.vuego"><template #a>deep</template></template></template></template>`, "f1.vuego": `<div><slot name="a"></slot><slot name="a"></slot></div>`},
 		{"f0.vuego": `<template include="f1.vuego"><i>s</i></template>`, "f1.vuego": `<template include="f2.vuego"><slot></slot><slot></slot></template>`, "f2.vuego": `<u><slot></slot><slot></slot></u>`},
 	}
